@@ -1,3 +1,3 @@
 From Coq Require Import Extraction ExtrOcamlBasic.
-From MW Require Import Common.Str C01.Model C02.Model.
-Extraction "../ocaml/c02/c02_model.ml" denote parse_sections nest den_list line_fuel.
+From MW Require Import Common.Str C01.Model C02.Model C02.ModelLines.
+Extraction "../ocaml/c02/c02_model.ml" denote parse_sections nest den_list line_fuel analyze_model analyze_fuel.
